@@ -116,6 +116,34 @@ def run_on(fb, chk, tag=""):
             if not any(bb in dom.get(u, ()) for bb, _t, _c in muts):
                 probs.append("an epoll update is not preceded by the state change")
         chk.check(not probs, "K2", tag + name, "state change dominates the epoll update", "%s: %s" % (f.short, "; ".join(probs)), f.loc())
+    # ------------------------------------------------------------------ worker survives an interrupted wait
+    # epoll_wait() may return EINTR at any time (a signal delivered to the worker): the loop must go round again, or
+    # every later kick of the worker's rings is lost.  Exactly the Interrupted kind is retried.
+    runs = [f for f in fb.find(name="run", self_adt="VringEpollHandler") if not f.trait]
+    if len(runs) == 1:
+        f = runs[0]
+        chk.fn_seen(f)
+        m = must_of(fb, f)
+        cfg = m.cfg
+        heads = {h for (_t, h) in cfg.back_edges()}
+        retried = []
+        for d, blk in enumerate(f.blocks):
+            if blk["cleanup"] or blk["term"]["k"] != "switch":
+                continue
+            for sx in cfg.succ[d]:
+                for a in m.edge_atoms(d, sx):
+                    if a[0] == "cmp" and a[1] == "Eq" and any("kind(" in show(x) for x in (a[2], a[3])):
+                        other = a[3] if "kind(" in show(a[2]) else a[2]
+                        kind_name = show(other).split("::")[-1].strip("{}() ")
+                        goes_round = bool(heads & (cfg.reach(sx, removed=set(cfg.returns)) | {sx})) and not (cfg.reach(sx, removed=heads) & set(cfg.returns))
+                        if goes_round:
+                            retried.append(kind_name)
+        chk.check(retried == ["Interrupted"] or sorted(set(retried)) == ["Interrupted"], "K3", tag + "wait-interrupted",
+                  "epoll wait error of kind Interrupted -> next iteration",
+                  "the worker loop retries the epoll wait for error kinds %s (must be exactly Interrupted: a signal during the wait would "
+                  "otherwise end the worker and lose every later kick)" % (sorted(set(retried)) or "none"), f.loc())
+    else:
+        chk.anchor_missing("K3", tag + "VringEpollHandler::run")
     # ------------------------------------------------------------------ K3 / K4
     hes = [f for f in fb.find(name="handle_event", self_adt="VringEpollHandler") if not f.trait]
     if len(hes) != 1:
